@@ -1011,6 +1011,13 @@ func genC08(b *builder, n int) {
 			b.add("cut", "series", append([]byte("x "), txt[:g.r.Intn(len(txt))]...), withKnown)
 		}
 	}
+	// a Decoder used for several values; series with struct types
+	genMulti(b, n/8, true)
+	genTyped(b, n/8, true)
+	for _, d := range docs {
+		b.add("docs", "stream", []byte(d), nil)
+		b.add("docs", "tseries", []byte(d), func(c *Case) { c.Known = typedKnown })
+	}
 	// command lines
 	for _, s := range shellCorpus {
 		b.add("shell", "shell", []byte(s), nil)
@@ -1099,6 +1106,9 @@ func genC09(b *builder, n int) {
 		b.add("plainjson", "unmarshal", txt, func(c *Case) { c.Want = want; c.Reasons = rs; c.Plain = true })
 	}
 	g.badUTF8 = true
+	// several values from one Decoder; series decoded into struct types
+	genMulti(b, n/5, false)
+	genTyped(b, n/5, false)
 	// trailing content after a complete value must be reported
 	for i := 0; i < n/4; i++ {
 		v := g.value(2)
